@@ -125,6 +125,7 @@ const struct suite g_aead_suites[] = {
         AS("sm4-gcm", IMB_CIPHER_SM4_GCM, 16, IMB_AUTH_SM4_GCM),
         AS("docsis-crc32-128", IMB_CIPHER_DOCSIS_SEC_BPI, 16, IMB_AUTH_DOCSIS_CRC32),
         AS("docsis-crc32-256", IMB_CIPHER_DOCSIS_SEC_BPI, 32, IMB_AUTH_DOCSIS_CRC32),
+        AS("pon-aes-ctr", IMB_CIPHER_PON_AES_CNTR, 16, IMB_AUTH_PON_CRC_BIP),
 };
 const int g_n_aead_suites = ARRAY_SZ(g_aead_suites);
 
@@ -215,6 +216,7 @@ cipher_zero_len_ok(IMB_CIPHER_MODE c)
         case IMB_CIPHER_SNOW_V_AEAD:
         case IMB_CIPHER_SM4_GCM:
         case IMB_CIPHER_DOCSIS_SEC_BPI:
+        case IMB_CIPHER_PON_AES_CNTR:
         case IMB_CIPHER_CFB:
                 return 1;
         default:
@@ -961,6 +963,26 @@ item_gen(struct item *it, const struct suite *cs, const struct suite *hs, struct
                         it->tag_len = 4;
                         break;
                 }
+                case IMB_CIPHER_PON_AES_CNTR: {
+                        /* XGEM frame: 8-byte header (PLI = payload length in the 14 top bits), payload padded to a
+                         * multiple of 4 (sometimes with extra padding words); BIP over the whole frame, AES-CTR over
+                         * the payload or not at all (msg_len_to_cipher = 0) */
+                        uint32_t pli = g->len >= 0 ? (uint32_t) g->len : (rng_below(r, 5) == 0 ? rng_below(r, 14) : it->c_len);
+                        if (pli > 16380)
+                                pli = 16380;
+                        uint32_t pay = (pli + 3) & ~3u;
+                        if (rng_below(r, 4) == 0 && pay + 8 <= 16380)
+                                pay += 4 * (1 + rng_below(r, 2));
+                        it->pon_pli = pli;
+                        it->h_off = 0;
+                        it->h_len = 8 + pay;
+                        it->c_off = 8;
+                        it->c_len = (pay == 0 || rng_below(r, 6) == 0) ? 0 : pay;
+                        it->iv_len = 16;
+                        it->tag_len = 8;
+                        it->order = rng_below(r, 2) ? IMB_ORDER_CIPHER_HASH : IMB_ORDER_HASH_CIPHER;
+                        break;
+                }
                 default:
                         break;
                 }
@@ -1015,12 +1037,14 @@ item_gen(struct item *it, const struct suite *cs, const struct suite *hs, struct
         it->buf_len = end_c > end_h ? end_c : end_h;
         if (aead && it->cipher == IMB_CIPHER_DOCSIS_SEC_BPI)
                 it->buf_len = it->h_off + it->h_len + 4;
+        if (it->cipher == IMB_CIPHER_PON_AES_CNTR)
+                it->buf_len = it->h_len;
         if (g->inplace >= 0)
                 it->inplace = g->inplace;
         else
                 it->inplace = (int) rng_below(r, 2);
         if (chained || (aead && it->cipher == IMB_CIPHER_DOCSIS_SEC_BPI) ||
-            it->cipher == IMB_CIPHER_CBCS_1_9 ||
+            it->cipher == IMB_CIPHER_CBCS_1_9 || it->cipher == IMB_CIPHER_PON_AES_CNTR ||
             ((it->cipher == IMB_CIPHER_SNOW3G_UEA2_BITLEN || it->cipher == IMB_CIPHER_KASUMI_UEA1_BITLEN) &&
              it->c_off_bits))
                 it->inplace = 1;
@@ -1029,6 +1053,10 @@ item_gen(struct item *it, const struct suite *cs, const struct suite *hs, struct
         it->exp_src = malloc(it->buf_len + 1);
         it->exp_dst = malloc(it->dst_len + 64);
         rng_bytes(r, it->src_orig, it->buf_len);
+        if (it->cipher == IMB_CIPHER_PON_AES_CNTR) {
+                it->src_orig[0] = (uint8_t) (it->pon_pli >> 6);
+                it->src_orig[1] = (uint8_t) ((it->pon_pli << 2) | (it->src_orig[1] & 3));
+        }
         it->src = galloc(it, "src", it->buf_len, 1);
         memcpy(it->src, it->src_orig, it->buf_len);
         if (cs) {
@@ -1654,6 +1682,17 @@ item_expect(struct item *it)
         default:
                 break;
         }
+        if (it->cipher == IMB_CIPHER_PON_AES_CNTR) {
+                uint32_t bip = 0, crc = 0;
+                int rc = ref_pon(ref_aes_enc, &ak, dec, it->iv, img, it->buf_len, it->c_len, &bip, &crc);
+                if (rc < 0)
+                        harness_fail("item: PON geometry rejected by the model (pli %u frame %u cipher %u)", it->pon_pli,
+                                     it->buf_len, it->c_len);
+                memcpy(it->exp_tag, &bip, 4);
+                memcpy(it->exp_tag + 4, &crc, 4);
+                it->pon_crc_defined = rc == 1;
+                return;
+        }
         if (it->cipher == IMB_CIPHER_DOCSIS_SEC_BPI && it->hash == IMB_AUTH_DOCSIS_CRC32) {
                 const struct ref_crc_params *p = crc_params(IMB_AUTH_CRC32_ETHERNET_FCS);
                 if (!dec) {
@@ -1713,6 +1752,8 @@ item_geom_class(const struct item *it)
                 snprintf(b, sizeof b, "|%s|%s|%s", it->h_len + 4 >= 32768 ? "frame>=32768" : "frame<32768",
                          rel == 12 ? "c12" : (rel + 16 <= it->h_len ? "cmid" : "ctail"),
                          it->c_len < 16 ? "clen<16" : "clen>=16");
+        } else if (it->cipher == IMB_CIPHER_PON_AES_CNTR) {
+                snprintf(b, sizeof b, "|%s|%s", it->c_len ? "ctr" : "noctr", it->buf_len == 8 ? "hdr-only" : (it->pon_pli <= 4 ? "pli<=4" : "pli>4"));
         } else if (it->c_len > 65534 || it->h_len > 65534)
                 snprintf(b, sizeof b, "|len>65534");
         return b;
@@ -1767,7 +1808,9 @@ item_check(struct item *it, const IMB_JOB *job, const char *prop, struct mmgr *m
                 }
         }
         if (it->tag_len) {
-                long d = first_diff(it->tag, it->exp_tag, it->tag_len);
+                /* PON with PLI <= 4: no CRC is computed; the CRC half of the tag is not specified */
+                uint32_t tcmp = (it->cipher == IMB_CIPHER_PON_AES_CNTR && !it->pon_crc_defined) ? 4 : it->tag_len;
+                long d = first_diff(it->tag, it->exp_tag, tcmp);
                 if (d >= 0) {
                         snprintf(key, sizeof key, "%s|%s|%s|tag%s", prop, v, hash_name(it->hash),
                                  item_geom_class(it));
@@ -1818,6 +1861,7 @@ refs_selftest_or_die(void)
         bad += ref_zuc_selftest();
         bad += ref_3g_selftest();
         bad += ref_snowv_selftest();
+        bad += ref_pon_selftest() ? 1 : 0;
         if (bad)
                 harness_fail("reference model self-test failed (%d)", bad);
 }
